@@ -372,6 +372,35 @@ func genC20(t *rapid.T) *Case {
 		c.Input = BStr(genLinkElements(t))
 		return c
 	}
+	if c.Spec.Base == "New" && rapid.IntRange(0, 9).Draw(t, "urlFocus") == 0 {
+		// URL-focused: URL attributes without patterns, a handful of schemes allowed plainly (data
+		// among them, with or without the validating helper), values in every spelling of scheme,
+		// surrounding and embedded white space: normalisation must reach its fixed point in one pass
+		c.Spec.Ops = append(c.Spec.Ops, Op{Kind: "AllowAttrs", Attrs: []string{"src", "href", "alt"}, Scope: "els", Names: []string{"img", "a"}, ValRe: -1},
+			Op{Kind: "AllowURLSchemes", Names: subset(t, []string{"data", "data", "https", "http", "mailto", "x-app"}, 1, 3, "ufScheme"), ValRe: -1})
+		if rapid.IntRange(0, 3).Draw(t, "ufHelper") == 0 {
+			c.Spec.Ops = append(c.Spec.Ops, Op{Kind: "AllowDataURIImages", ValRe: -1})
+		}
+		if rapid.Bool().Draw(t, "ufRel") {
+			c.Spec.Ops = append(c.Spec.Ops, Op{Kind: "AllowRelativeURLs", B: true, ValRe: -1})
+		}
+		var sb strings.Builder
+		for i := rapid.IntRange(1, 3).Draw(t, "nurl"); i > 0; i-- {
+			sch := rapid.SampledFrom([]string{"data:", "DATA:", "Data:", "https:", "HTTPS:", "x-app:", "X-App:", "mailto:", ""}).Draw(t, "ufs")
+			rest := rapid.SampledFrom([]string{"image/png;base64,iVBORw0KGgoAAAAN", "image/png;base64,iVBORw0K GgoAAAAN", "image/png;base64,iVBORw0K\nGgoAAAAN", "image/png;base64,iVBO\r\n  Rw0K\tGgo=",
+				"image/gif;BASE64,R0lG ODlh", "text/plain,a b", "//example.com/a b", "//EXAMPLE.com/%7Euser", "//example.com/\u00e9?q=\u00fc#\u00e4", "a@b.c", "/p/../q", "image/png;base64, iVBO", ";base64,QQ== "}).Draw(t, "ufr")
+			pad := rapid.SampledFrom([]string{"", "", " ", "\n", "\t"}).Draw(t, "ufpad")
+			v := pad + sch + rest + rapid.SampledFrom([]string{"", "", " "}).Draw(t, "ufpad2")
+			if rapid.Bool().Draw(t, "ufImg") {
+				sb.WriteString(`<img alt="x" ` + quotedAttr("src", v) + ">")
+			} else {
+				sb.WriteString("<a " + quotedAttr("href", v) + ">t</a>")
+			}
+		}
+		c.Input = BStr(sb.String())
+		c.Kind = "url-focus"
+		return c
+	}
 	if c.Spec.Base != "Strict" && rapid.IntRange(0, 4).Draw(t, "styleFocus") == 0 {
 		// style-focused: the style attribute allowed, a few style rules with any kind of matcher
 		// (style matchers are not among the patterns the class excludes), values with escapes,
